@@ -2,7 +2,7 @@
    each builds a valid DFA accepting exactly the words over its alphabet that satisfy the
    predicate of Spec/Preds.v. *)
 From Coq Require Import List Arith Bool Lia.
-From AV Require Import Base.Util Spec.Lang Spec.FA Spec.Preds Model.Construct Proofs.FARun Proofs.Preds.
+From AV Require Import Base.Util Spec.Lang Spec.FA Spec.Preds Model.Construct Proofs.FARun Proofs.Preds Proofs.Border.
 Import ListNotations.
 
 Lemma promised_lang m syms c (P : word -> Prop) (pb : word -> bool) :
@@ -675,4 +675,94 @@ Proof.
     + lia.
     + intros q a t Hq _ H. eapply nth_start_closed; eassumption.
     + intros _ q a _ _. apply nth_start_total.
+Qed.
+
+(* ---------- from_substring / from_suffix (specification model) ---------- *)
+Section Substring.
+  Variable p : word.
+  Let l := length p.
+
+  (* suffix automaton: the state is lps p (text read) *)
+  Lemma suffix_arun w : arun (substring_f p true) (Some 0) w = Some (lps p w).
+  Proof.
+    induction w as [|a w IH] using rev_ind.
+    - simpl. rewrite lps_nil. reflexivity.
+    - rewrite arun_app, IH. cbn [arun fold_left astep]. unfold substring_f. cbn [negb andb].
+      rewrite <- lps_step. reflexivity.
+  Qed.
+
+  (* substring automaton: the same, absorbing once the pattern has occurred *)
+  Lemma substring_arun w :
+    arun (substring_f p false) (Some 0) w = Some (if substringb p w then l else lps p w).
+  Proof.
+    induction w as [|a w IH] using rev_ind.
+    - cbn [arun fold_left]. rewrite lps_nil. destruct (substringb p []) eqn:E; [|reflexivity].
+      apply substringb_spec in E. destruct E as [u [v E]].
+      destruct u; [|discriminate]. destruct p; [reflexivity|discriminate].
+    - rewrite arun_app, IH. cbn [arun fold_left astep]. unfold substring_f. cbn [negb andb].
+      destruct (substringb p w) eqn:Es.
+      + fold l. rewrite Nat.eqb_refl.
+        assert (Hs : substringb p (w ++ [a]) = true).
+        { apply substringb_spec, contains_snoc. left. apply substringb_spec. exact Es. }
+        rewrite Hs. reflexivity.
+      + assert (Hne : Nat.eqb (lps p w) (length p) = false).
+        { apply Nat.eqb_neq. intro E. apply lps_full_iff in E. apply suffix_contains in E.
+          apply substringb_spec in E. congruence. }
+        rewrite Hne, <- lps_step. f_equal.
+        destruct (substringb p (w ++ [a])) eqn:Es'; [|reflexivity].
+        apply substringb_spec, contains_snoc in Es'. destruct Es' as [C|S].
+        * apply substringb_spec in C. congruence.
+        * apply lps_full_iff. exact S.
+  Qed.
+
+  Lemma substring_closed ms q a t : q < S l -> substring_f p ms q a = Some t -> t < S l.
+  Proof.
+    intro Hq. unfold substring_f. destruct (negb ms && Nat.eqb q (length p)); intro H; inversion H; subst.
+    - exact Hq.
+    - pose proof (lps_le p (firstn q p ++ [a])). unfold l. lia.
+  Qed.
+
+  Lemma suffix_final w : Nat.eqb (lps p w) l = suffixb p w.
+  Proof. apply eq_true_iff_eq. rewrite Nat.eqb_eq, suffixb_spec. apply lps_full_iff. Qed.
+
+  Lemma substring_final w : Nat.eqb (if substringb p w then l else lps p w) l = substringb p w.
+  Proof.
+    destruct (substringb p w) eqn:Es; [apply Nat.eqb_refl|].
+    apply Nat.eqb_neq. intro E. apply lps_full_iff in E. apply suffix_contains in E.
+    apply substringb_spec in E. congruence.
+  Qed.
+End Substring.
+
+Lemma substringb_nil w : substringb [] w = true.
+Proof. destruct w; reflexivity. Qed.
+Lemma suffixb_nil w : suffixb [] w = true.
+Proof. reflexivity. Qed.
+
+Theorem from_substring_acc syms p c ms w :
+  dfa_acc (from_substring_m syms p c ms) w
+  = overb syms w && flagb c (if ms then suffixb p w else substringb p w).
+Proof.
+  unfold from_substring_m. destruct p as [|x p'].
+  - assert (Ht : (if ms then suffixb [] w else substringb [] w) = true)
+      by (destruct ms; [apply suffixb_nil|apply substringb_nil]).
+    rewrite Ht. destruct c; simpl.
+    + rewrite universal_acc, andb_true_r. reflexivity.
+    + rewrite empty_acc, andb_false_r. reflexivity.
+  - set (p := x :: p'). rewrite table_acc.
+    + f_equal. destruct ms.
+      * rewrite suffix_arun. cbn [afin]. rewrite suffix_final. reflexivity.
+      * rewrite substring_arun. cbn [afin]. rewrite substring_final. reflexivity.
+    + lia.
+    + intros q a t Hq _ H. eapply substring_closed; eassumption.
+Qed.
+
+Theorem from_substring_valid syms p c ms : NoDup syms -> valid_dfa (from_substring_m syms p c ms) = true.
+Proof.
+  intro Hnd. unfold from_substring_m. destruct p as [|x p'].
+  - destruct c; [apply universal_valid|apply empty_valid]; exact Hnd.
+  - apply table_valid.
+    + exact Hnd.
+    + lia.
+    + intros q a t Hq _ H. eapply substring_closed; eassumption.
+    + intros _ q a _ _. unfold substring_f. destruct (negb ms && _); discriminate.
 Qed.
